@@ -11,6 +11,8 @@ import (
 	"strings"
 
 	"github.com/ozanh/ugo"
+	ujson "github.com/ozanh/ugo/stdlib/json"
+	ustrings "github.com/ozanh/ugo/stdlib/strings"
 
 	"verif/internal/bcv"
 	"verif/internal/fw"
@@ -43,6 +45,8 @@ func moduleMap() *ugo.ModuleMap {
 	mm := ugo.NewModuleMap()
 	mm.AddSourceModule("cnt", []byte(modSrc["cnt"]))
 	mm.AddBuiltinModule("bm", map[string]ugo.Object{"x": ugo.Int(1), "arr": ugo.Array{ugo.Int(1)}})
+	mm.AddBuiltinModule("json", ujson.Module)
+	mm.AddBuiltinModule("strings", ustrings.Module)
 	return mm
 }
 
@@ -72,6 +76,10 @@ var scripts = []script{
 	{"go-panic-at-depth3-with-try-frames", pre + "var (f1, f2, f3); f3 = func() { return [PANIC()] }; f2 = func() { try { return [f3()] } finally { L(23) } }; f1 = func() { try { return [f2()] } finally { L(24) } }; return [f1()]", nil},
 	{"stack-overflow-at-depth3-with-try-frames", pre + "o := 1; var (f1, f2, f3); f3 = func() { return [" + strings.Repeat("o, ", 2060) + "o] }; f2 = func() { try { return [f3()] } catch e { L(25) } }; f1 = func() { try { return [f2()] } catch e { L(26) } }; return [f1()]", nil},
 	{"abort-inside-pooled-callback", pre + "g := func() { try { ABORT(); for { } } finally { L(27) } }; return [CB(g)]", nil},
+	// standard-library calls that fail half way: whatever scratch state the Go side keeps (buffers, pools) must not
+	// reach a later run
+	{"json-marshal-fails-midway", pre + "json := import(\"json\"); a := [1, \"partial output\", 2]; a[2] = a; r := json.Marshal(a); m := {k: [1, 2, func() {}]}; return [isError(r), isError(json.Marshal(m)), isError(json.MarshalIndent(a, \"\", \" \"))]", nil},
+	{"strings-callback-fails-midway", pre + "strings := import(\"strings\"); z := 0; try { strings.Map(func(c) { if c == 'c' { return 1 / z }; return c }, \"abcd\") } catch e { L(31) }; return strings.Repeat(\"ab\", 3)", nil},
 	{"nested-try-return", pre + "f := func() { for i := 0; i < 3; i++ { try { try { if i == 1 { continue }; if i == 2 { return i } } finally { L(i) } } finally { L(10 + i) } }; return -1 }; return f()", nil},
 }
 
@@ -85,6 +93,8 @@ var probes = []script{
 	{"probe-uncaught-error-depth3", pre + "var (f1, f2, f3); f3 = func() { return [1][9] }; f2 = func() { return [f3()] }; f1 = func() { return [f2()] }; return f1()", nil},
 	{"probe-uncaught-error-top", pre + "param a; return 10 % a", []ugo.Object{ugo.Int(0)}},
 	{"probe-callback", pre + "g := func(x) { return x * 2 }; return [CB(g, 4), CB(g, 5)]", nil},
+	{"probe-json", pre + "json := import(\"json\"); return [string(json.Marshal([1, {a: \"x\"}, [2]])), string(json.MarshalIndent({b: [true]}, \"\", \" \")), string(json.Unmarshal(\"[1, 2]\"))]", nil},
+	{"probe-strings", pre + "strings := import(\"strings\"); return [strings.Map(func(c) { return c + 1 }, \"abc\"), strings.Join([\"a\", \"b\"], \"-\"), strings.Title(\"xy z\")]", nil},
 	{"probe-params", pre + "param (a, ...b); return [a, b]", nil},
 }
 
@@ -274,7 +284,20 @@ func run7(c *fw.Ctx) {
 			o := w.runScript(s, bcs[i])
 			o2 := (&world{vm: ugo.NewVM(bcs[i]).SetRecover(rec), cur: bcs[i]}).runScript(s, bcs[i])
 			if o.String() != o2.String() {
-				c.Infra("script %s is not deterministic on new VMs: %s vs %s", s.name, o, o2)
+				// "running the same Bytecode again on a new ... VM gives the same outcome every time": no script of the
+				// alphabet iterates a map, so two new VMs must agree. What differs between the two runs is only what
+				// the process did in between (the scripts run before: Go-side scratch state, pools).
+				if c.Shard == 0 {
+					short := func(x string) string {
+						if len(x) > 300 {
+							return x[:300] + "…"
+						}
+						return x
+					}
+					c.Violation(fmt.Sprintf("new-vm-determinism script=%s recover=%v", s.name, rec),
+						fmt.Sprintf("the same Bytecode run on two new VMs gives different outcomes: {%s} and then {%s}", short(o.String()), short(o2.String())),
+						map[string]any{"script": s.src, "ran_before_in_this_process": i})
+				}
 				return
 			}
 			fresh[rec] = append(fresh[rec], o)
